@@ -179,7 +179,8 @@ LAYOUTS = {
     "threevol": (["/home", "/mnt/a", "/mnt/a/in", "/b"], "/home/u"),
 }
 
-TOP_STATES = ["absent", "sticky", "nonsticky", "link_sticky", "link_nonsticky", "file"]
+TOP_STATES = ["absent", "sticky", "nonsticky", "link_sticky", "link_nonsticky", "file", "setgid",
+              "setuid"]
 ALT_STATES = ["absent", "dir", "file"]
 
 
@@ -191,6 +192,10 @@ def topdir_nodes(vol, uid, top_state, alt_state, populate_uid_dir=False):
         nodes.append({"p": v + "/.Trash", "t": "d", "m": 0o1777})
     elif top_state == "nonsticky":
         nodes.append({"p": v + "/.Trash", "t": "d", "m": 0o777})
+    elif top_state == "setgid":   # special bits other than the sticky one do not make it secure
+        nodes.append({"p": v + "/.Trash", "t": "d", "m": 0o2777})
+    elif top_state == "setuid":
+        nodes.append({"p": v + "/.Trash", "t": "d", "m": 0o4755})
     elif top_state == "link_sticky":
         nodes.append({"p": v + "/.real-trash", "t": "d", "m": 0o1777})
         nodes.append({"p": v + "/.Trash", "t": "l", "to": ".real-trash"})
@@ -200,7 +205,7 @@ def topdir_nodes(vol, uid, top_state, alt_state, populate_uid_dir=False):
     elif top_state == "file":
         nodes.append({"p": v + "/.Trash", "t": "f", "c": "not a dir"})
     if populate_uid_dir and top_state in ("sticky", "nonsticky", "link_sticky",
-                                          "link_nonsticky"):
+                                          "link_nonsticky", "setgid", "setuid"):
         base = v + ("/.Trash" if not top_state.startswith("link") else "/.real-trash")
         nodes.append({"p": base + "/%d" % uid, "t": "d", "m": 0o700})
     if alt_state == "dir":
